@@ -285,7 +285,9 @@ def _apply_unitary(val: Any, args: ApplyChannelArgs) -> np.ndarray | None:
     if left_result is None:
         return None
     right_args = ApplyUnitaryArgs(
-        target_tensor=np.conjugate(left_result),
+        # np.conjugate returns a scalar, not an array, for a zero-dimensional tensor
+        # (an operation on no qubits applied to the qubit-less part of a product state).
+        target_tensor=np.asarray(np.conjugate(left_result)),
         available_buffer=args.out_buffer,
         axes=args.right_axes,
     )
